@@ -327,6 +327,16 @@ add('init-array-designator-on-struct', 'decl', 'struct cs in5 = { [0] = 1 };')
 add('init-member-designator-on-array', 'decl', 'int in6[2] = { .m = 1 };')
 add('init-unknown-member-designator', 'decl', 'struct cs in7 = { .nomember = 1 };')
 add('init-designator-out-of-range', 'decl', 'int in8[2] = { [5] = 1 };')
+# a block-scope declaration with linkage is compared with the file-scope declaration of the same name even when a local without linkage
+# hides it in between (6.2.2p4, 6.7p4; seeded round 10: the comparison used the innermost visible declaration)
+for _i, (_fs, _loc, _blk) in enumerate((('int %s;', 'int %s = 0;', 'extern char %s;'), ('extern long %s;', 'char %s = 0;', 'extern int %s;'), ('int %s(void);', 'int %s = 0;', 'extern long %s(void);'),
+                                        ('int %s(void);', 'int %s = 0;', 'long %s(void);'), ('int %s;', 'int %s = 0;', 'extern int %s(void);'), ('int %s(void);', 'int %s = 0;', 'extern int %s;'),
+                                        ('static int %s;', 'long %s = 0;', 'extern char %s;'), ('extern int %s[4];', 'int %s = 0;', 'extern int %s[5];'),
+                                        ('int %s;', 'struct { int x; } %s = {0};', 'extern unsigned %s;'), ('int %s;', 'typedef int %s;', 'extern char %s;'))):
+    _n = 'hb%d' % _i
+    add('block-extern-behind-local/%d' % _i, 'decl', '%s void hbf%d(int n) { %s { %s } }' % (_fs % _n, _i, _loc % _n, _blk % _n), blockok=False)
+    add('block-extern-behind-parameter/%d' % _i, 'decl', '%s void hbg%d(int %s) { { %s } }' % (_fs % _n, _i, _n, _blk % _n), blockok=False)
+    add('block-extern-behind-two-locals/%d' % _i, 'decl', '%s void hbh%d(int n) { %s { int %s = 1; { %s } } }' % (_fs % _n, _i, _loc % _n, _n, _blk % _n), blockok=False)
 add('init-negative-designator', 'decl', 'int in9[2] = { [-1] = 1 };')
 # boundary versions of the range checks (index == length, width == type width + 1, value == max + 1)
 add('init-designator-equal-to-length', 'decl', 'int in8b[3] = { 1, [3] = 7 };')
